@@ -140,7 +140,9 @@ impl Check for C16 {
                     HandleSpec::Plain(0)
                 }
             }
-            2 => HandleSpec::Stack { writer: Some(0), readers: vec![1], auto_sync: w.draw(2) == 0, checker: CheckerKind::None },
+            // (half of the stacks have no read-only level behind the writer:
+            //  nothing but the write side is there to look at the name)
+            2 => HandleSpec::Stack { writer: Some(0), readers: if w.draw(2) == 0 { vec![1] } else { vec![] }, auto_sync: w.draw(2) == 0, checker: CheckerKind::None },
             _ => HandleSpec::ReadOnly { readers: vec![0, 1], checker: CheckerKind::None },
         };
         let is_stack = matches!(spec, HandleSpec::Stack { .. });
